@@ -119,11 +119,33 @@ func (e *Exec) divNonneg(s *State, num, den string) (string, string) {
 			return q.String(), r.String()
 		}
 	}
-	q := e.sol.fresh("q", false)
-	r := e.sol.fresh("r", false)
+	// the quotient of the same two terms is the same number wherever it is computed: one (q, r) pair per (num, den),
+	// so that repeated computations (and the two runs of a self-composed harness) branch on identical conditions
+	key := num + "|" + den
+	e.mu.Lock()
+	qr, seen := e.divMemo[key]
+	e.mu.Unlock()
+	if !seen {
+		qr = [2]string{e.sol.fresh("q", false), e.sol.fresh("r", false)}
+		e.mu.Lock()
+		if prev, raced := e.divMemo[key]; raced {
+			qr = prev
+		} else {
+			e.divMemo[key] = qr
+		}
+		e.mu.Unlock()
+	}
+	q, r := qr[0], qr[1]
 	def := fmt.Sprintf("(= %s (+ (* %s %s) %s))", num, q, den, r)
 	if isNonlinear(def) {
 		def = "#def#" + def
+	}
+	if seen {
+		for _, c := range s.PC {
+			if c == def {
+				return q, r // already defined on this path
+			}
+		}
 	}
 	s.PC = append(s.PC, def, "(>= "+r+" 0)", "(< "+r+" "+den+")", "(>= "+q+" 0)")
 	return q, r
